@@ -71,7 +71,7 @@ namespace avel {
 
         AVEL_FINL explicit Vector_mask(bool b):
         #if defined(AVEL_AVX512VL) || defined(AVEL_AVX10_1)
-            content(b ? -1 : 0) {}
+            content(b ? 0x0F : 0x00) {}
         #elif defined(AVEL_AVX2)
             content(b ? _mm256_set1_epi64x(-1) : _mm256_setzero_si256()) {}
         #endif
